@@ -20,6 +20,7 @@ CLAUSE = CLAUSE + (" (RF-TAB) a stored page is copied with the size cache_page_s
                    "variable page part (data.ext_lop, data.enh_lop) is under designation bits for which that size includes the part.")
 CLAUSE = CLAUSE + (" (RF-WIDTH) the statistics fields that take a page's subpage number can hold every subcode the decoder stores "
                    "(mask 0x3F7F).")
+CLAUSE = CLAUSE + (" The updates of subno_min and subno_max in cache_network_add_page do not depend on each other's test.")
 NOT_DECIDED = ("map semantics (lookup returns the most recent version), memory-limit arithmetic, exactness of the per-network "
                "statistics, distinctness of death_row entries across the two eviction passes.")
 
@@ -46,6 +47,7 @@ def run(ctx, run):
     from . import C01
     C01._page_sizes(ctx, run)
     _subno_range_fits(ctx, run)
+    _range_updates_independent(ctx, run)
 
 
 def _pairing(ctx, run, what, acq, rel, hint, movers, floor):
@@ -514,3 +516,32 @@ def _subno_range_fits(ctx, run):
                                   "vbi_cache_hi_subno() disagrees with the cached page and the search's page walk never visits it"
                                   % (ex.pretty(f, i)[:40], top, cap if cap is not None else 0), ex.loc(f, i))
     run.floor("statistics stores of a page's subpage number", n, 2)
+
+
+def _range_updates_independent(ctx, run):
+    """RF-CORR: cache_network_add_page() extends the received subpage range at both ends:
+    subno_min and subno_max are two independent updates.  If the second is only reached when the
+    first did not fire (an `else if`), a page that sets or lowers the minimum never raises the
+    maximum: 'highest subpage' stays behind the cached pages and the page walk skips them."""
+    P = ctx.prog
+    f = P.need("cache_network_add_page", "src/cache.c")
+    run.touch(f)
+    n = 0
+    for bid, i in flow.all_events(f):
+        for lhs, var, op, rhs in flow.stores(f, i):
+            if lhs is None:
+                continue
+            l = f.exprs[ex.skip(f, lhs)]
+            if not (l["k"] == "mem" and l.get("in") == "ttx_page_stat" and l["member"] in ("subno_min", "subno_max")):
+                continue
+            other = "subno_max" if l["member"] == "subno_min" else "subno_min"
+            n += 1
+            dep = [a for a in atoms.atoms_at(f, i) if a.L.has("ttx_page_stat." + other) or (a.R is not None and a.R.has("ttx_page_stat." + other))]
+            key = "RF-CORR:cache_network_add_page:%s-independent" % l["member"]
+            if dep:
+                run.violation("RF-CORR", key, "`%s` is reached only when the test on %s went a particular way (%s): the two ends of "
+                              "the received subpage range are no longer updated independently, so a page that moves one end never "
+                              "moves the other" % (ex.pretty(f, i)[:40], other, dep[0]), ex.loc(f, i))
+            else:
+                run.holds("RF-CORR", key, "the update of %s does not depend on the test of %s" % (l["member"], other), ex.loc(f, i))
+    run.floor("updates of the received subpage range", n, 2)
